@@ -3,3 +3,33 @@
 
 def install_all(count, violate):
     pass
+
+
+def install_delays(cfg):
+    """Seeded random sleeps inside the real tasks that MeshRegion hands to ParallelMap, so
+    that worker completion orders are permuted (C13).  The wrappers keep the original
+    __module__/__qualname__ and replace the module attribute, so they pickle by reference
+    and are found again inside the (forked) workers."""
+    import functools
+    import os
+    import random
+    import time
+
+    import hypnotoad.core.equilibrium as eqm
+    import hypnotoad.core.mesh as mesh
+
+    seed = int(cfg.get("seed", 0))
+    max_s = float(cfg.get("max_s", 0.02))
+
+    def wrap(fn):
+        @functools.wraps(fn)
+        def w(*a, **k):
+            rnd = random.Random((seed, os.getpid(), time.monotonic_ns()).__hash__())
+            time.sleep(rnd.random() * max_s)
+            return fn(*a, **k)
+
+        return w
+
+    for name in ("followPerpendicular", "_find_intersection", "_calc_contour_distance", "_refine_extend"):
+        setattr(mesh, name, wrap(getattr(mesh, name)))
+    eqm.PsiContour.refine = wrap(eqm.PsiContour.refine)
